@@ -70,9 +70,9 @@ func c11RunRound(s *c10Session, c *c11Case, want []c10Out) c11Round {
 			for atomic.LoadInt32(&goFlag) == 0 {
 				runtime.Gosched()
 			}
-			outs[i] = c10Eval(fn.f, c.Argss[i], c.J, c.Prog.Coq != "")
+			outs[i] = c10Eval(fn.f, c.Argss[i], c.J, c.Prog.modelled())
 			for k := 1; k < c.Iter; k++ {
-				o := c10Eval(fn.f, c.Argss[i], c.J, c.Prog.Coq != "")
+				o := c10Eval(fn.f, c.Argss[i], c.J, c.Prog.modelled())
 				if o.Kind != want[i].Kind || o.String() != want[i].String() {
 					outs[i] = o // keep a wrong one
 				}
@@ -232,7 +232,7 @@ func c11Observe(c *c11Case) c11Hook {
 				}
 			}
 		}
-		c10Eval(fn.f, a, c.J, c.Prog.Coq != "")
+		c10Eval(fn.f, a, c.J, c.Prog.modelled())
 		after := fn.allReps()
 		for n := range before {
 			if before[n] != after[n] {
